@@ -5,7 +5,7 @@ import json, os, subprocess, sys, threading, queue, re, shutil
 V = '/verif'
 lanes = int(sys.argv[1]) if len(sys.argv) > 1 and sys.argv[1].isdigit() else 3
 prefixes = [a for a in sys.argv[1:] if not a.isdigit()]
-EXTRA = {'C06_m3': ['C17'], 'C10_m1': ['C11'], 'C11_m3': ['C10']}
+EXTRA = {'C06_m3': ['C17'], 'C10_m1': ['C11'], 'C11_m3': ['C10'], 'C09_m3': ['C10'], 'C01_r2m3': ['C04']}
 head = subprocess.check_output(['git', '-C', '/repo', 'rev-parse', '--short', 'HEAD'], text=True).strip()
 seeds = sorted(d for d in os.listdir(V + '/seeded') if os.path.exists('%s/seeded/%s/patch.diff' % (V, d)))
 if prefixes:
